@@ -294,7 +294,8 @@ def reference_wls(x, y, q, h, kernel, degree):
             conds.append(float("inf"))
             ests.append(float("nan"))
             continue
-        conds.append(float((s[0] / s[-1]) ** 2))
+        with np.errstate(over="ignore"):
+            conds.append(float((s[0] / s[-1]) ** 2))
         beta = np.linalg.lstsq(A, sw * y, rcond=None)[0]
         ests.append(float(beta[0]))
     return ests, conds, npos
